@@ -188,6 +188,21 @@ def table_agreement(ctx, rule, crates, min_pairs, exceptions=None):
         loc = "%s:%d" % (e["file"], e["line"])
         name = "%s [%s]" % (e["enum"].split("::")[-1], e["fn"])
         codes = list(e["map"].values())
+        many_to_one = exceptions.get(e["fn"]) == "many-to-one"
+        if many_to_one:
+            # a text coding that does not carry the storage width: dec(enc(v)) must be a variant with the same code
+            cands = [d for d in decs if d["enum"] == e["enum"] and len(set(d["map"]) & set(codes)) >= max(2, len(set(codes)) - 1)]
+            for d in cands:
+                npairs += 1
+                bad = [(v, c, d["map"].get(c)) for v, c in e["map"].items() if d["map"].get(c) is None or e["map"].get(d["map"].get(c)) != c]
+                if bad:
+                    v, c, got = bad[0]
+                    ctx.violation(rule, "%s/enc-dec-mismatch/%s/%s" % (rule, e["fn"], d["fn"]),
+                                  "%s::%s is encoded as %s by %s but %s decodes %s as %s (a variant of another code class)" % (
+                                      e["enum"].split("::")[-1], v, c, e["fn"], d["fn"], c, got), loc)
+                else:
+                    ctx.ok(rule, "%s <-> %s" % (name, d["fn"]), "many-to-one text coding: dec∘enc stays in the code class on all %d variants" % len(e["map"]), loc)
+            continue
         if len(set(codes)) != len(codes):
             dup = sorted({c for c in codes if codes.count(c) > 1})
             ctx.violation(rule, "%s/duplicate-code/%s" % (rule, e["fn"]), "encoder %s maps two variants to the same code %s" % (e["fn"], dup), loc)
